@@ -25,6 +25,7 @@ RULE = (
     "table.  The audit also checks the map's own invariants: every registered atom sits in the cell "
     'of its current coordinates; at the end of a run every atom of the structure is registered; a '
     'returned one-shot iterable walked twice is reported.'
+    ' big: the audit on a peptide in a 60-200 water box, protein + strands, 4-9 chains, a long chain.'
 )
 ASSUMPTIONS = [
     "oracle: brute-force numpy distances over the model set maintained by the harness",
